@@ -103,7 +103,8 @@ def run_case(case, rec, ctx):
     rfeat = reaction_features(reaction)
     feats = {**rfeat, "align": cfg["align"], "stable": cfg["stable"] is not None, "scalar_mass": cfg["scalar_mass"],
              **R.massless_alignment_features(reaction, cfg["align"]),
-             "couplings": cfg["couplings"], "permutate": cfg["permutate"], "has_dynamics": bool(cfg["dynamics"])}
+             "couplings": cfg["couplings"], "permutate": cfg["permutate"], "has_dynamics": bool(cfg["dynamics"]),
+             "subthreshold_resonance_with_energy_dependent_width": C.subthreshold_energy_dependent_width(reaction, cfg)}
     ctx["feats"] = feats
     ctx["label"] = f"{rname} [{C.config_key(cfg)}]"
     ctx["raised"] = False
